@@ -119,8 +119,8 @@ pub fn check_text(text: &str, planted: &[(usize, &'static str)]) -> Result<(bool
 }
 
 const MALFORMED: [(&str, &[&str]); 6] = [
-    ("MissingEndQuotes", &["cmd \"abc", "x = cmd a \"b c", "cmd \"a\\\"", ":l cmd \"", "cmd \"a\" \"b"]),
-    ("ControlWithoutValidValue", &["cmd \\q", "cmd \"a\\qb\"", "cmd a\\", "x = cmd \\$a", "cmd a\\ b"]),
+    ("MissingEndQuotes", &["cmd \"abc", "x = cmd a \"b c", "cmd \"a\\\"", ":l cmd \"", "cmd \"a\" \"b", "!print \"abc", "!print \"never closed\\\""]),
+    ("ControlWithoutValidValue", &["cmd \\q", "cmd \"a\\qb\"", "cmd a\\", "x = cmd \\$a", "cmd a\\ b", "!print bad\\q", "!print a\\"]),
     ("InvalidQuotesLocation", &["\"cmd\" a", "x = \"cmd\"", ":\"l\" cmd", "\"x\" = cmd", ":l \"cmd\""]),
     ("InvalidControlLocation", &["c\\md a", "x = c\\nmd", ":l\\a cmd", "x\\y = cmd", "\\cmd"]),
     ("PreProcessNoCommandFound", &["!", "  !", "!   ", "\t! "]),
@@ -190,8 +190,8 @@ pub fn worker(w: &mut Worker) {
     // each character; only \\ \" \n \r \t and \${ are documented, everything else must be rejected
     // with ControlWithoutValidValue at that line
     let follow = ["a", "n", "r", "t", "\\", "\"", "$", "{", "}", " ", "#", "=", ":", "%", "q", "0", "é", ""];
-    for (pi, prefix) in ["cmd ", "cmd \"", "x = cmd a", ":l cmd b "].iter().enumerate() {
-        let in_quotes = pi == 1;
+    for prefix in ["cmd ", "cmd \"", "x = cmd a", ":l cmd b ", "!print ", "!print a \""].iter() {
+        let in_quotes = prefix.ends_with('"');
         for dollar in [false, true] {
             for c in follow {
                 // what follows the escape keeps the line otherwise well-formed; the escape in the
@@ -323,7 +323,7 @@ pub fn crash_sig(_case: &Value, kind: &str) -> String {
     kind.to_string()
 }
 
-pub const RULE: &str = "enumeration (no duplicates within a phase): planted malformed line (6 kinds x 4-5 spellings) at every position among every choice of well-formed lines (pool of 10), LF and CRLF; pairs of malformed lines; the escape table (a backslash, and a backslash-dollar, followed by each of 18 characters in 4 argument positions, in the middle of an argument / at the end of the line / before trailing white space / before a comment / before the closing quote, at every line position: only the documented escapes parse, all others are rejected with ControlWithoutValidValue); every sequence of tokens from a pool of 14; lines of 10^4 and 10^5 repeated characters of each class; every text up to the length bound over {a SP \" \\ # = : ! $ { LF CR} (+TAB, e-acute). Oracle: no panic; Ok => one instruction per line with line numbers 1..n, no source tag, blank/comment lines Empty, each line parses alone to the same instruction; Err(kind,k) => 1<=k<=n and line k alone is rejected with the same kind; planted error => that kind and line. Non-trivial: the text contains one of \" \\ # = : !; states = distinct (verdict, error kind, error line, line count) classes, transitions = parse_text calls on whole texts";
+pub const RULE: &str = "enumeration (no duplicates within a phase): planted malformed line (6 kinds x 4-5 spellings) at every position among every choice of well-formed lines (pool of 10), LF and CRLF; pairs of malformed lines; the escape table (a backslash, and a backslash-dollar, followed by each of 18 characters in 6 argument positions (four on command lines, two on pre-processor lines), in the middle of an argument / at the end of the line / before trailing white space / before a comment / before the closing quote, at every line position: only the documented escapes parse, all others are rejected with ControlWithoutValidValue); every sequence of tokens from a pool of 14; lines of 10^4 and 10^5 repeated characters of each class; every text up to the length bound over {a SP \" \\ # = : ! $ { LF CR} (+TAB, e-acute). Oracle: no panic; Ok => one instruction per line with line numbers 1..n, no source tag, blank/comment lines Empty, each line parses alone to the same instruction; Err(kind,k) => 1<=k<=n and line k alone is rejected with the same kind; planted error => that kind and line. Non-trivial: the text contains one of \" \\ # = : !; states = distinct (verdict, error kind, error line, line count) classes, transitions = parse_text calls on whole texts";
 pub const ASSUMPTIONS: &[&str] = &["no !include_files directive in the texts (C14 covers includes)"];
 pub const EXHAUSTIVE: bool = true;
 pub const WALL_CAP_S: (u64, u64) = (50, 1500);
